@@ -86,6 +86,12 @@ def generate(rng, tier):
         o.pop("mode", None)
         if o.get("addition") in (True, False):
             o.pop("addition")
+        if "addition" not in o and rng.random() < 0.4:
+            # an un-annotated **kwargs; Options(override=True) makes the user's options win over the implied
+            # addition=True, i.e. the surplus keywords are ignored
+            plan["untyped_kwargs"] = True
+            if rng.random() < 0.5:
+                o["override"] = True
         for f in fields:
             f["mode"] = None
             f["no_input"] = False
@@ -263,6 +269,8 @@ def build(plan, dfs, collect):
             params.append(f"{f['name']}: T_{f['name']}")
         else:
             params.append(f"{f['name']}: T_{f['name']} = None")
+    if plan.get("untyped_kwargs"):
+        params.append("**kwargs")
     if plan["options"].get("addition") == "leaf":
         env["Leaf"] = faults.Leaf
         params.append("**kwargs: Leaf")
